@@ -12,9 +12,10 @@ Open Scope string_scope.
 (* id, cipher, mac, key exchange ("tls13" for TLS 1.3 suites), needs TLS 1.2, sha384 PRF, allowed in SSLv3 *)
 Definition suite := (Z * string * string * string * bool * bool * bool)%type.
 
-Record cred := { cr_kind : string;      (* "rsa" | "ecdsa" *)
+Record cred := { cr_kind : string;      (* "rsa" | "ecdsa" | "psk" (no certificate: the shared external PSK is the credential) *)
                  cr_bits : Z;           (* size of the public key *)
-                 cr_curve : string }.   (* curve of an ECDSA key *)
+                 cr_curve : string;     (* curve of an ECDSA key *)
+                 cr_psk : string }.     (* PRF hash of the PSK both sides hold ("sha256" | "sha384"), "" = none *)
 
 Definition has (l : list val) (s : string) : bool := val_in (VStr s) l.
 Definition inter (a b : list val) : list val := filter (fun x => val_in x b) a.
@@ -92,13 +93,33 @@ Definition compatible_at (T : tables) (suites : list suite) (vc vs : vw) (cr : c
   existsb (fun su => suite_enabled vc ver su && suite_enabled vs ver su && kex_fits_cred (kex_of su) cr
                      && group_shared T vc vs ver (kex_of su) && sig_shared vc vs ver (kex_of su) cr) suites.
 
+(* ---- PSK-only servers (TLS 1.3 external PSK, no certificate) ------------------------------------
+   "usable with the server's credentials": the credential is the PSK both endpoints list (2-tuple = sha256,
+   3-tuple names its hash); the suite's PRF hash must be the PSK's; a key-exchange mode both allow, and a
+   shared group when that mode is psk_dhe_ke. *)
+Definition psk_listed (v : vw) (h : string) : bool :=
+  existsb (fun x => match x with
+                    | VPsk n hh => ((n =? 2)%Z && String.eqb h "sha256") || ((n =? 3)%Z && opt_str_eqb hh (Some h))
+                    | _ => false end) (VG v F_pskConfigs).
+
+Definition suite_prf384 (su : suite) : bool := let '(_, _, _, _, _, p384, _) := su in p384.
+
+Definition compatible_psk_at (T : tables) (suites : list suite) (vc vs : vw) (h : string) (ver : Z * Z) : bool :=
+  ver_eqb ver (3, 4) && psk_listed vc h && psk_listed vs h &&
+  existsb (fun su => suite_enabled vc ver su && suite_enabled vs ver su
+                     && Bool.eqb (suite_prf384 su) (String.eqb h "sha384")) suites &&
+  ((has (VG vc F_psk_modes) "psk_ke" && has (VG vs F_psk_modes) "psk_ke") ||
+   (has (VG vc F_psk_modes) "psk_dhe_ke" && has (VG vs F_psk_modes) "psk_dhe_ke" && group_shared T vc vs ver "tls13")).
+
 (* "share a protocol version and, for it, ...": read as the version TLS negotiates, the highest shared one *)
 Definition compatible (T : tables) (suites : list suite) (vc vs : vw) (cr : cred) : bool :=
   match shared_versions vc vs with
   | [] => false
-  | ver :: _ => compatible_at T suites vc vs cr ver
+  | ver :: _ => if String.eqb (cr_kind cr) "psk" then compatible_psk_at T suites vc vs (cr_psk cr) ver
+                else compatible_at T suites vc vs cr ver
   end.
 
 (* the weaker reading: SOME shared version has everything (recorded, not enforced) *)
 Definition compatible_any (T : tables) (suites : list suite) (vc vs : vw) (cr : cred) : bool :=
-  existsb (compatible_at T suites vc vs cr) (shared_versions vc vs).
+  if String.eqb (cr_kind cr) "psk" then existsb (compatible_psk_at T suites vc vs (cr_psk cr)) (shared_versions vc vs)
+  else existsb (compatible_at T suites vc vs cr) (shared_versions vc vs).
